@@ -65,6 +65,10 @@ EXPLANATION += (
     ' Round 7: per-level options written for the full taxonomy are not rejected for naming a dropped level (R-GUARD/lookup-superset-tolerated).'
 )
 
+EXPLANATION += (
+    ' Round 8: node identity is checked over all taxonomy modules.'
+)
+
 RULE_TEXT = (
     "one obligation per consumer of the tree, per reducer call, per "
     "drop_level(<config>) call site, per flatten rebinding")
